@@ -614,74 +614,6 @@ theorem upperBytes_id : ∀ (l : List Nat), l.all (fun b => StepModel.isUpper b 
     show StepModel.toUpper a :: upperBytes t = a :: t
     rw [toUpper_id a h.1, ih h.2]
 
-/-- the scalar parameter kinds of the eager reader's `Covered` are tokens the lazy scanner passes (`LazyTok`), with the reference
-    they mention: `$`, `*`, INTEGER, entity reference, STRING of the grammar, `.ENUM.`, `"BINARY"`, REAL, NUMBER -/
-theorem C10_covered_tokens_lazy (tok : List Nat) (hs : Small tok) :
-    (tok = [36] ∨ tok = [42] ∨ isInteger tok = true ∨ isReal tok = true ∨
-      (∃ name, tok = 46 :: (name ++ [46]) ∧ name.all pw = true) ∨
-      (∃ hex, tok = 34 :: (hex ++ [34]) ∧ hex.all StepModel.isXDigit = true)) →
-    LazyTok tok (tokRefs tok) := by
-  intro h
-  have key : tok.all lplain = true → LazyTok tok (tokRefs tok) := by
-    intro hp
-    have := LazyTok.plain tok hp
-    rw [← lazyTok_refs tok [] this]; exact this
-  rcases h with rfl | rfl | h | h | ⟨name, rfl, hn⟩ | ⟨hex, rfl, hx⟩
-  · exact key (by decide)
-  · exact key (by decide)
-  · exact key (isInteger_lplain tok hs h)
-  · exact key (isReal_lplain tok hs h)
-  · apply key
-    have hsn : Small name := hs.cons.2.app.1
-    simp only [List.all_cons, List.all_append, List.all_nil, Bool.and_true, Bool.and_eq_true]
-    exact ⟨by decide, all_lplain_of _ pw_lplain' name hsn hn, by decide⟩
-  · apply key
-    have hsn : Small hex := hs.cons.2.app.1
-    simp only [List.all_cons, List.all_append, List.all_nil, Bool.and_true, Bool.and_eq_true]
-    exact ⟨by decide, all_lplain_of _ xdigit_lplain' hex hsn hx, by decide⟩
-
-/-- every parameter of the eager reader's `Covered` whose token does not start with `(` (aggregates) or a letter (typed SELECT values)
-    is a parameter the lazy scanner passes with exactly the reference it mentions: `$`, `*`, INTEGER, REAL, NUMBER, STRING, ENUMERATION /
-    BOOLEAN / LOGICAL, BINARY, entity references (also inside a SELECT).  The proof asks one thing of the real code for the reference
-    case: an id the eager reader accepts (`≤ INT_MAX`) is one the lazy scanner accepts (`≤ instanceIdMax`, regenerated) -/
-theorem C10_covered_param_lazy (env : Env F) (p : Param F) (hc : Covered env p)
-    (hs : Small (p.before ++ (p.tok ++ p.after)))
-    (hk : p.tok.head? ≠ some 40 ∧ ∀ c, p.tok.head? = some c → StepModel.isAlpha c = false) : LazyParam p := by
-  have hst : Small p.tok := hs.app.2.app.1
-  have hrefOk : ∀ ds : List Nat, ((StepModel.digitsVal ds 0 : Nat) : Int) ≤ IStream.intMax →
-      StepModel.digitsVal ds 0 ≤ instanceIdMax := by
-    intro ds h
-    have h' : ((StepModel.digitsVal ds 0 : Nat) : Int) ≤ 2147483647 := h
-    show _ ≤ 18446744073709551615
-    omega
-  cases hc with
-  | dollar a hopt hder hred before after hb ha => exact ⟨C10_covered_tokens_lazy _ hst (Or.inl rfl), hb, ha, hs⟩
-  | star a hder hred before after hb ha => exact ⟨C10_covered_tokens_lazy _ hst (Or.inr (Or.inl rfl)), hb, ha, hs⟩
-  | integer a hty hder hred tok htok hlo hhi before after hb ha =>
-    exact ⟨C10_covered_tokens_lazy _ hst (Or.inr (Or.inr (Or.inl htok))), hb, ha, hs⟩
-  | ref a tg hty hder hred ds hne hds hhi hfound before after hb ha =>
-    exact ⟨LazyTok.ref ds hne hds (hrefOk ds hhi), hb, ha, hs⟩
-  | aggrInt a hty hder hred es inner hok hin before after hb ha =>
-    exact absurd (by cases es <;> rfl) hk.1
-  | string a hty hder hred b hb before after hbf ha => exact ⟨LazyTok.string b hb, hbf, ha, hs⟩
-  | enum a ty hty het hder hred name i hne hname hfind hset before after hbf ha =>
-    exact ⟨C10_covered_tokens_lazy _ hst (Or.inr (Or.inr (Or.inr (Or.inr (Or.inl ⟨name, rfl, hname⟩))))), hbf, ha, hs⟩
-  | binary a hty hder hred hex hne hhex before after hbf ha =>
-    exact ⟨C10_covered_tokens_lazy _ hst (Or.inr (Or.inr (Or.inr (Or.inr (Or.inr ⟨hex, rfl, hhex⟩))))), hbf, ha, hs⟩
-  | real a hty hder hred tok dec v htok hden hv hnn hbuf before after hbf ha =>
-    exact ⟨C10_covered_tokens_lazy _ hst (Or.inr (Or.inr (Or.inr (Or.inl htok)))), hbf, ha, hs⟩
-  | aggr a ety hty hder hred es inner hok hin before after hb ha =>
-    exact absurd (by cases es <;> rfl) hk.1
-  | selTyped a n hty hder hred sd hsd m n0 ns hn0 =>
-    have := hk.2 n0 rfl
-    rw [hn0] at this; cases this
-  | selRef a n hty hder hred sd hsd m ds hne hds hhi hasg before after hb ha =>
-    exact ⟨LazyTok.ref ds hne hds (hrefOk ds hhi), hb, ha, hs⟩
-  | number a hty hder hred tok dec v htok hden hv hnn before after hbf ha =>
-    rcases htok with h | h
-    · exact ⟨C10_covered_tokens_lazy _ hst (Or.inr (Or.inr (Or.inr (Or.inl h)))), hbf, ha, hs⟩
-    · exact ⟨C10_covered_tokens_lazy _ hst (Or.inr (Or.inr (Or.inl h))), hbf, ha, hs⟩
-
 theorem flatMap_congr_mem {α β} (f g : α → List β) : ∀ l : List α, (∀ x ∈ l, f x = g x) → l.flatMap f = l.flatMap g := by
   intro l
   induction l with
@@ -691,55 +623,217 @@ theorem flatMap_congr_mem {α β} (f g : α → List β) : ∀ l : List α, (∀
     simp only [List.flatMap_cons]
     rw [h a (by simp), ih (fun x hx => h x (List.mem_cons_of_mem _ hx))]
 
-/-- the entity references in a value the eager reader stores -/
-def atomRefs : Atom F → List Nat
-  | .ref i => [i.toNat]
-  | _ => []
-def elemRefs : Elem F → List Nat
-  | .atom a => atomRefs a
-  | .sel _ a => atomRefs a
-def valRefs : MVal F → List Nat
-  | .one e => elemRefs e
-  | .aggr es => es.flatMap elemRefs
-  | _ => []
-/-- the entity references an eagerly read instance holds, in attribute order -/
+/-- the entity references an eagerly read instance holds, in attribute order (`valRefs`: the references in one stored value) -/
 def instRefs (i : MInst F) : List Nat := i.parts.flatMap (fun p => p.vals.flatMap valRefs)
 
-/-- for a covered scalar parameter the reference the lazy scanner records for the token is the reference in the value the eager reader
-    stores for it -/
-theorem C10_covered_param_refs (env : Env F) (p : Param F) (hc : Covered env p)
-    (hs : Small (p.before ++ (p.tok ++ p.after)))
-    (hk : p.tok.head? ≠ some 40 ∧ ∀ c, p.tok.head? = some c → StepModel.isAlpha c = false) : tokRefs p.tok = valRefs p.v := by
-  have hst : Small p.tok := hs.app.2.app.1
-  have plain : ∀ t : List Nat, t.all lplain = true → tokRefs t = [] := fun t ht => (lazyTok_refs t [] (LazyTok.plain t ht)).symm
+/-! #### every covered parameter of the eager reader is a token sequence the lazy scanner passes (`LSeq`), with exactly the references
+of the value the eager reader stores -/
+
+theorem ref_ok (ds : List Nat) (h : ((StepModel.digitsVal ds 0 : Nat) : Int) ≤ IStream.intMax) :
+    StepModel.digitsVal ds 0 ≤ instanceIdMax := by
+  have h' : ((StepModel.digitsVal ds 0 : Nat) : Int) ≤ 2147483647 := h
+  show _ ≤ 18446744073709551615
+  omega
+
+theorem wrap_lplain (q : Nat) (hq : lplain q = true) (l : List Nat) (hl : l.all lplain = true) : (q :: (l ++ [q])).all lplain = true := by
+  simp only [List.all_cons, List.all_append, List.all_nil, Bool.and_true, Bool.and_eq_true]
+  exact ⟨hq, hl, hq⟩
+
+theorem spaces_safe (sC : List Nat) (h : sC.all StepModel.isSpace = true) :
+    sC.head? ≠ some 39 ∧ ∀ c, sC.head? = some c → StepModel.isDigit c = false := by
+  cases sC with
+  | nil => simp
+  | cons a u =>
+    have := seps_then_safe (a :: u) (Seps.blanks _ h) 44 [] (by decide) (by decide)
+    simpa using this
+
+/-- a typed SELECT value `KEYWORD blanks ( blanks leaf blanks )` whose leaf is passed without references -/
+theorem selText_lseq (n0 : Nat) (ns : List Nat) (hn0 : StepModel.isAlpha n0 = true) (hns : ns.all kwc = true)
+    (tok : List Nat) (htok : LSeq tok []) (sA sB sC : List Nat) (hsA : sA.all StepModel.isSpace = true)
+    (hsB : sB.all StepModel.isSpace = true) (hsC : sC.all StepModel.isSpace = true) : LSeq (selText n0 ns sA sB tok sC) [] := by
+  have e : selText n0 ns sA sB tok sC = (n0 :: ns) ++ (sA ++ (40 :: ((sB ++ (tok ++ sC)) ++ 41 :: []))) := by simp [selText]
+  rw [e]
+  have hkw : (n0 :: ns).all lplain = true := by
+    apply all_lplain_of0 pw pw_lplain0
+    simp only [List.all_cons, Bool.and_eq_true]
+    refine ⟨?_, hns⟩
+    unfold pw StepModel.isAlnum; simp [hn0]
+  have hs := spaces_safe sC hsC
+  have hin : LSeq (sB ++ (tok ++ sC)) [] := by
+    have := LSeq.plains_append sB (spaces_lplain sB hsB) (LSeq.append htok (lseq_plains sC (spaces_lplain sC hsC)) hs.1 hs.2)
+    simpa using this
+  have hn := LSeq.nest (sB ++ (tok ++ sC)) [] [] [] hin LSeq.nil
+  exact LSeq.plains_append _ hkw (LSeq.plains_append sA (spaces_lplain sA hsA) hn)
+
+theorem leaf_lseq (env : Env F) (m : SelMember) (tok : List Nat) (av : Atom F) (h : LeafCovered env m tok av) :
+    LSeq tok [] ∧ atomRefs av = [] := by
+  cases h with
+  | integer hm tok htok hlo hhi => exact ⟨lseq_plains _ (isInteger_lplain0 _ htok), rfl⟩
+  | real hm tok dec v htok hden hv hnn hbuf => exact ⟨lseq_plains _ (isReal_lplain0 _ htok), rfl⟩
+  | string hm b hsb => exact ⟨LazyTok.string b hsb, rfl⟩
+  | enum het name i hne hname hfind hset =>
+    exact ⟨lseq_plains _ (wrap_lplain 46 (by decide) name (all_lplain_of0 pw pw_lplain0 name hname)), rfl⟩
+  | binary hm hex hne hhex =>
+    exact ⟨lseq_plains _ (wrap_lplain 34 (by decide) hex (all_lplain_of0 _ xdigit_lplain0 hex hhex)), rfl⟩
+
+/-- an aggregate element of any covered kind but the raw text of an aggregate of aggregates -/
+theorem elem_lseq (env : Env F) (ety : ElemTy) (e : ElemG F) (h : ElemCovered env ety e) (hng : ety ≠ .generic) :
+    LSeq e.tok (elemRefs e.v) ∧ Seps e.before ∧ Seps e.after := by
+  cases h with
+  | integer tok htok hlo hhi before after hb ha => exact ⟨lseq_plains _ (isInteger_lplain0 _ htok), hb, ha⟩
+  | real tok dec v htok hden hv hnn hbuf before after hb ha => exact ⟨lseq_plains _ (isReal_lplain0 _ htok), hb, ha⟩
+  | string b hsb before after hb ha => exact ⟨LazyTok.string b hsb, hb, ha⟩
+  | enum ty het name i hne hname hfind hset before after hb ha =>
+    exact ⟨lseq_plains _ (wrap_lplain 46 (by decide) name (all_lplain_of0 pw pw_lplain0 name hname)), hb, ha⟩
+  | binary hex hne hhex before after hb ha =>
+    exact ⟨lseq_plains _ (wrap_lplain 34 (by decide) hex (all_lplain_of0 _ xdigit_lplain0 hex hhex)), hb, ha⟩
+  | ref tg ds hne hds hhi hfound before after hb ha =>
+    refine ⟨?_, hb, ha⟩
+    show LSeq (35 :: ds) [Int.toNat ((StepModel.digitsVal ds 0 : Nat) : Int)]
+    rw [Int.toNat_natCast]
+    exact LazyTok.ref ds hne hds (ref_ok ds hhi)
+  | generic body hb before hbf => exact absurd rfl hng
+  | number hnum tok dec v htok hden hv hnn before after hb ha =>
+    refine ⟨lseq_plains _ ?_, hb, ha⟩
+    rcases htok with h | h
+    · exact isReal_lplain0 _ h
+    · exact isInteger_lplain0 _ h
+  | selTyped n sd hsd m n0 ns hn0 hns hfind tok av hleaf sA sB sC hsA hsB hsC before after hb ha =>
+    obtain ⟨h1, h2⟩ := leaf_lseq env m tok av hleaf
+    refine ⟨?_, hb, ha⟩
+    show LSeq (selText n0 ns sA sB tok sC) (atomRefs av)
+    rw [h2]
+    exact selText_lseq n0 ns hn0 hns tok h1 sA sB sC hsA hsB hsC
+  | selRef n sd hsd m ds hne hds hhi hasg before after hb ha =>
+    refine ⟨?_, hb, ha⟩
+    show LSeq (35 :: ds) [Int.toNat ((StepModel.digitsVal ds 0 : Nat) : Int)]
+    rw [Int.toNat_natCast]
+    exact LazyTok.ref ds hne hds (ref_ok ds hhi)
+
+/-- the element list of an aggregate, up to its closing parenthesis -/
+theorem elems_lseq : ∀ (es : List (ElemG F)), es ≠ [] →
+    (∀ e ∈ es, LSeq e.tok (elemRefs e.v) ∧ Seps e.before ∧ Seps e.after) →
+    ∃ X, renderElemsG es = X ++ [41] ∧ LSeq X (es.flatMap (fun e => elemRefs e.v)) := by
+  intro es
+  induction es with
+  | nil => intro h; exact absurd rfl h
+  | cons e t ih =>
+    intro _ hall
+    obtain ⟨he, hb, ha⟩ := hall e (by simp)
+    cases t with
+    | nil =>
+      refine ⟨e.before ++ (e.tok ++ e.after), by simp [renderElemsG], ?_⟩
+      have := LSeq.item_last hb he ha
+      simpa using this
+    | cons f u =>
+      obtain ⟨X, hX, hL⟩ := ih (by simp) (fun x hx => hall x (List.mem_cons_of_mem _ hx))
+      refine ⟨e.before ++ (e.tok ++ (e.after ++ 44 :: X)), by simp [renderElemsG, hX], ?_⟩
+      have h44 : LSeq (44 :: X) ((f :: u).flatMap (fun e => elemRefs e.v)) := LSeq.plain 44 X _ (by decide) hL
+      have := LSeq.item hb he ha 44 X (by decide) (by decide) h44
+      simpa using this
+
+theorem aggr_lseq (es : List (ElemG F)) (inner : List Nat) (hin : Seps inner)
+    (hall : ∀ e ∈ es, LSeq e.tok (elemRefs e.v) ∧ Seps e.before ∧ Seps e.after) :
+    LSeq (aggrTextG es inner) (es.flatMap (fun e => elemRefs e.v)) := by
+  cases es with
+  | nil =>
+    have := LSeq.nest inner [] [] [] (lseq_seps inner hin) LSeq.nil
+    simpa [aggrTextG] using this
+  | cons e t =>
+    obtain ⟨X, hX, hL⟩ := elems_lseq (e :: t) (by simp) hall
+    have := LSeq.nest X [] _ [] hL LSeq.nil
+    simp only [aggrTextG, hX]
+    simpa using this
+
+/-- **every parameter of the eager reader's `Covered`** — `$`, `*`, INTEGER, REAL, NUMBER, STRING, ENUMERATION / BOOLEAN / LOGICAL, BINARY,
+    entity references, typed SELECT values `KEYWORD(leaf)`, SELECT references, and aggregates of all of these with any layout inside —
+    is a token the lazy scanner passes, recording exactly the entity references in the value the eager reader stores for it
+    (`valRefs p.v`).  Excluded: aggregates of aggregates (element type `generic`: the eager reader keeps their raw text and resolves no
+    reference in it, the lazy scanner records every `#n` of it).  For a reference the proof asks one thing of the code: an id the eager
+    reader accepts (`≤ INT_MAX`) is one the lazy scanner accepts (`≤ instanceIdMax`, regenerated) -/
+theorem C10_covered_param_lazy (env : Env F) (p : Param F) (hc : Covered env p)
+    (hs : Small (p.before ++ (p.tok ++ p.after))) (hng : p.a.ty ≠ .aggr .generic) : LazyParam p := by
+  have key : ∀ {a v tok before after}, LSeq tok (valRefs v) → Seps before → Seps after →
+      Small (before ++ (tok ++ after)) → LazyParam ({ a := a, v := v, tok := tok, before := before, after := after } : Param F) :=
+    fun ht hb ha hsm => ⟨ht, hb, ha, hsm⟩
   cases hc with
   | dollar a hopt hder hred before after hb ha =>
-    show [] = valRefs (nullOf a)
-    unfold nullOf
-    split
-    · rfl
-    · split <;> rfl
-  | star a hder hred before after hb ha => rfl
-  | integer a hty hder hred tok htok hlo hhi before after hb ha => exact plain tok (isInteger_lplain tok hst htok)
+    refine key ?_ hb ha hs
+    have : valRefs (nullOf a : MVal F) = [] := by
+      unfold nullOf
+      split
+      · rfl
+      · split <;> rfl
+    rw [this]; exact lseq_plains [36] (by decide)
+  | star a hder hred before after hb ha => exact key (lseq_plains [42] (by decide)) hb ha hs
+  | integer a hty hder hred tok htok hlo hhi before after hb ha =>
+    exact key (lseq_plains _ (isInteger_lplain0 _ htok)) hb ha hs
   | ref a tg hty hder hred ds hne hds hhi hfound before after hb ha =>
-    show [StepModel.digitsVal ds 0] = [Int.toNat ((StepModel.digitsVal ds 0 : Nat) : Int)]
+    refine key ?_ hb ha hs
+    show LSeq (35 :: ds) [Int.toNat ((StepModel.digitsVal ds 0 : Nat) : Int)]
     rw [Int.toNat_natCast]
-  | aggrInt a hty hder hred es inner hok hin before after hb ha => exact absurd (by cases es <;> rfl) hk.1
-  | string a hty hder hred b hb before after hbf ha => rfl
-  | enum a ty hty het hder hred name i hne hname hfind hset before after hbf ha => rfl
-  | binary a hty hder hred hex hne hhex before after hbf ha => rfl
-  | real a hty hder hred tok dec v htok hden hv hnn hbuf before after hbf ha => exact plain tok (isReal_lplain tok hst htok)
-  | aggr a ety hty hder hred es inner hok hin before after hb ha => exact absurd (by cases es <;> rfl) hk.1
-  | selTyped a n hty hder hred sd hsd m n0 ns hn0 =>
-    have := hk.2 n0 rfl
-    rw [hn0] at this; cases this
+    exact LazyTok.ref ds hne hds (ref_ok ds hhi)
+  | aggrInt a hty hder hred es inner hok hin before after hb ha =>
+    refine key ?_ hb ha hs
+    -- the older constructor for aggregates of INTEGER: the same text as `aggrTextG` over the same elements
+    have hall : ∀ e ∈ es.map (fun e : ElemP => ({ tok := e.tok, before := e.before, after := e.after, v := elemVal e } : ElemG F)),
+        LSeq e.tok (elemRefs e.v) ∧ Seps e.before ∧ Seps e.after := by
+      intro e he
+      obtain ⟨e0, he0, rfl⟩ := List.mem_map.mp he
+      obtain ⟨h1, _, _, h4, h5⟩ := hok e0 he0
+      exact ⟨lseq_plains _ (isInteger_lplain0 _ h1), h4, h5⟩
+    have hren : ∀ l : List ElemP, renderElemsG (l.map (fun e : ElemP =>
+        ({ tok := e.tok, before := e.before, after := e.after, v := elemVal e } : ElemG F))) = renderElems l := by
+      intro l
+      induction l with
+      | nil => rfl
+      | cons x t ih =>
+        cases t with
+        | nil => rfl
+        | cons y u => simp only [List.map_cons, renderElemsG, renderElems] at ih ⊢; rw [ih]
+    have htxt : aggrTextG (es.map (fun e : ElemP =>
+        ({ tok := e.tok, before := e.before, after := e.after, v := elemVal e } : ElemG F))) inner = aggrText es inner := by
+      cases es with
+      | nil => rfl
+      | cons x t => simp only [aggrTextG, aggrText, List.map_cons]; rw [← hren (x :: t)]; rfl
+    have := aggr_lseq _ inner hin hall
+    rw [htxt] at this
+    have hr : (es.map (fun e : ElemP => ({ tok := e.tok, before := e.before, after := e.after, v := elemVal e } : ElemG F))).flatMap
+        (fun e => elemRefs e.v) = valRefs (MVal.aggr (es.map (elemVal (F := F)))) := by
+      simp [valRefs, List.flatMap_map]
+    rw [hr] at this
+    exact this
+  | string a hty hder hred b hb before after hbf ha => exact key (LazyTok.string b hb) hbf ha hs
+  | enum a ty hty het hder hred name i hne hname hfind hset before after hbf ha =>
+    exact key (lseq_plains _ (wrap_lplain 46 (by decide) name (all_lplain_of0 pw pw_lplain0 name hname))) hbf ha hs
+  | binary a hty hder hred hex hne hhex before after hbf ha =>
+    exact key (lseq_plains _ (wrap_lplain 34 (by decide) hex (all_lplain_of0 _ xdigit_lplain0 hex hhex))) hbf ha hs
+  | real a hty hder hred tok dec v htok hden hv hnn hbuf before after hbf ha =>
+    exact key (lseq_plains _ (isReal_lplain0 _ htok)) hbf ha hs
+  | aggr a ety hty hder hred es inner hok hin before after hb ha =>
+    refine key ?_ hb ha hs
+    have hne : ety ≠ .generic := fun e => hng (by rw [hty, e])
+    have := aggr_lseq es inner hin (fun e he => elem_lseq env ety e (hok e he) hne)
+    have hr : es.flatMap (fun e => elemRefs e.v) = valRefs (MVal.aggr (es.map (·.v))) := by
+      simp [valRefs, List.flatMap_map]
+    rw [hr] at this
+    exact this
+  | selTyped a n hty hder hred sd hsd m n0 ns hn0 hns hfind tok av hleaf sA sB sC hsA hsB hsC before after hb ha =>
+    refine key ?_ hb ha hs
+    obtain ⟨h1, h2⟩ := leaf_lseq env m tok av hleaf
+    show LSeq (selText n0 ns sA sB tok sC) (atomRefs av)
+    rw [h2]
+    exact selText_lseq n0 ns hn0 hns tok h1 sA sB sC hsA hsB hsC
   | selRef a n hty hder hred sd hsd m ds hne hds hhi hasg before after hb ha =>
-    show [StepModel.digitsVal ds 0] = [Int.toNat ((StepModel.digitsVal ds 0 : Nat) : Int)]
+    refine key ?_ hb ha hs
+    show LSeq (35 :: ds) [Int.toNat ((StepModel.digitsVal ds 0 : Nat) : Int)]
     rw [Int.toNat_natCast]
+    exact LazyTok.ref ds hne hds (ref_ok ds hhi)
   | number a hty hder hred tok dec v htok hden hv hnn before after hbf ha =>
+    refine key (lseq_plains _ ?_) hbf ha hs
     rcases htok with h | h
-    · exact plain tok (isReal_lplain tok hst h)
-    · exact plain tok (isInteger_lplain tok hst h)
+    · exact isReal_lplain0 _ h
+    · exact isInteger_lplain0 _ h
 
 /-- the source skips comments as raw text (`sectionReader::skipComment`, regenerated; `fixes/C10-7`): the hypothesis `commentsRaw = true`
     of the theorems of this section holds for the tree the check runs on.  Does not elaborate on a tree where comments are skipped with
@@ -752,14 +846,14 @@ theorem C10_source_comments_raw : commentsRaw = true := by decide
 theorem C10_source_eager_comments_any_length : StepModel.Generated.rwCfg.commentsOfAnyLength = true := by decide
 
 /-- what the lazy side asks of a record of the eager reader's covered class, all of it about the bytes of the file: the keyword is
-    upper case, the instance name is not `#0` and has at most `instanceIdDigits` significant digits, no parameter is an aggregate or a
-    typed SELECT value, and every byte is below 256 -/
+    upper case, the instance name is not `#0` and has at most `instanceIdDigits` significant digits, no parameter is an aggregate of
+    aggregates, and every byte is below 256 -/
 structure LazySide (rg : Rec F × List Nat) : Prop where
   up0 : StepModel.isUpper rg.1.n0 = true
   ups : rg.1.ns.all (fun b => StepModel.isUpper b || StepModel.isDigit b || b == 95) = true
   pos : 0 < StepModel.digitsVal rg.1.ds 0
   dlen : idLen (cs rg.1.ds) ≤ instanceIdDigits
-  scalar : ∀ p ∈ rg.1.ps, p.tok.head? ≠ some 40 ∧ ∀ c, p.tok.head? = some c → StepModel.isAlpha c = false
+  nogen : ∀ p ∈ rg.1.ps, p.a.ty ≠ .aggr .generic
   smp : ∀ p ∈ rg.1.ps, Small (p.before ++ (p.tok ++ p.after))
   sm : Small (rg.1.ds ++ (rg.1.s1 ++ (rg.1.s2 ++ (rg.1.n0 :: rg.1.ns ++ (rg.1.s3 ++ rg.1.s4)))))
   smg : Small rg.2
@@ -770,19 +864,21 @@ theorem lazyRecs_of_covered (env : Env F) (rs : List (Rec F × List Nat)) (hrec 
   obtain ⟨hl, hg, _, _, _, _, hcov⟩ := hrec rg hrg
   have h := hlz rg hrg
   exact ⟨hl, ⟨h.up0, h.ups, h.pos, h.dlen,
-    fun p hp => C10_covered_param_lazy env p (hcov p hp) (h.smp p hp) (h.scalar p hp), h.sm⟩, hg, h.smg⟩
+    fun p hp => C10_covered_param_lazy env p (hcov p hp) (h.smp p hp) (h.nogen p hp), h.sm⟩, hg, h.smg⟩
 
 /-- **the lazy index lists exactly the ids and keywords the eager reader loads** (`_partial`), between the two models, on the same
     bytes.  For every file of the eager reader's file-level theorem `C01_read_file_partial` (any number of records with different ids,
     any separator layout — blanks and comments — between any two tokens, forward and backward references) that also satisfies the lazy
     side's conditions `LazySide`: the eager model creates one instance per record, and the lazy scanner model (on the same bytes, as
     `Char`s) returns one index entry per record, in the same order, with the same instance id, the same entity keyword, and as forward
-    references exactly the `#n` parameter tokens of the record — which are exactly the entity references in the values the eager reader
-    stores for the instance, in attribute order (`instRefs`); the section is accepted and the counts agree.
-    Excluded inputs, spelled out: (1) what `C01_read_file_partial` excludes (aggregates of NUMBER / of aggregates / of selects, selects,
-    external mappings, entities without attributes, user-defined entities, scopes); (2) parameters that are aggregates or typed SELECT values
-    `KW(v)` — the lazy side covers the scalar kinds of `C10_covered_param_lazy`: `$`, `*`, numbers, strings, enumerations, binaries and
-    references (aggregates are covered by `C10_scan_file_gaps` on the token grammar, but not yet through this bridge); (3) keywords with lower-case letters (the eager reader folds case, the lazy scanner
+    references exactly the entity references in the values the eager reader stores for the instance — inside aggregates and SELECT
+    values too —, in attribute order (`instRefs`); the section is accepted and the counts agree.
+    Excluded inputs, spelled out: (1) what `C01_read_file_partial` excludes (redeclared attributes, selects whose member is a select or
+    an aggregate, external mappings, entities without attributes, user-defined entities, scopes); (2) parameters that are aggregates of
+    aggregates (element type `generic`: the eager reader keeps their raw text and resolves no reference in it, the lazy scanner records
+    every `#n` in it) — every other parameter kind of `Covered` is covered (`C10_covered_param_lazy`): `$`, `*`, numbers, strings,
+    enumerations, binaries, references, typed SELECT values and SELECT references, and aggregates of all of these with any layout
+    inside; (3) keywords with lower-case letters (the eager reader folds case, the lazy scanner
     `abort()`s — not conforming Part 21); (4) instance name `#0` and names with more than 20 significant digits; (5) bytes ≥ 256;
     (6) the source shape before `fixes/C10-7` (`commentsRaw`): there a comment containing `'` or `/*` derails the lazy scanner
     (replayed, corpus `layout-apostrophe-in-comment`).  Comments of any length are covered: the eager model's `readComment` has no length
@@ -827,13 +923,8 @@ theorem C10_index_equals_eager_partial (ops : FloatOps F) (lex : LexCfg) (cfg : 
     simp only [List.map_map]
     apply List.map_congr_left
     intro rg hrg
-    obtain ⟨_, _, _, _, _, _, hcov⟩ := hrec rg hrg
-    have hl := hlz rg hrg
     simp only [Function.comp, recEntry, finInst, instRefs, List.flatMap_cons, List.flatMap_nil, List.append_nil, paramsRefs,
       List.flatMap_map]
-    apply flatMap_congr_mem
-    intro q hq
-    exact C10_covered_param_refs _ q (hcov q hq) (hl.smp q hq) (hl.scalar q hq)
   · rw [hcr]; simp
 
 /-- **`loadInstance` hands `STEPread` exactly the record's parameter list** (`_partial`).  For a record of the covered class standing
@@ -844,7 +935,7 @@ theorem C10_index_equals_eager_partial (ops : FloatOps F) (lex : LexCfg) (cfg : 
     and every separator between them; and `SDAI_Application_instance::STEPread` (the eager model's `instSTEPread`, the same function
     the eager reader calls) on exactly that text reads every parameter to the value the eager reader stores for the record
     (`C01_read_record_partial`), with severity NULL, and rests after the `)`.
-    Excluded: as in `C10_index_equals_eager_partial` (aggregate and typed-SELECT parameters, lower-case keywords, `#0`, ids above INT_MAX,
+    Excluded: as in `C10_index_equals_eager_partial` (aggregates of aggregates, lower-case keywords, `#0`, ids above INT_MAX,
     bytes ≥ 256, the source before `fixes/C10-7`) and entities without attributes (`hne`: an empty parameter list `()`); the reference look-up `env.lookup` is the same function on both sides — in the code the lazy
     side answers it through `instMgrAdapter::FindFileId` → `loadInstance` (`C10_load_any_order`: resolved exactly as the eager
     reader resolves them). -/
@@ -857,7 +948,7 @@ theorem C10_materialise_partial (hraw : commentsRaw = true) (env : Env F) (stric
       r.sev = .null ∧ r.vals = rg.1.ps.map (·.v) ∧ r.s.right = rg.1.t4 rest := by
   obtain ⟨hl, hg, _, _, _, _, hcov⟩ := hc
   have hlr : LazyRec rg.1 := ⟨hlz.up0, hlz.ups, hlz.pos, hlz.dlen,
-    fun p hp => C10_covered_param_lazy env p (hcov p hp) (hlz.smp p hp) (hlz.scalar p hp), hlz.sm⟩
+    fun p hp => C10_covered_param_lazy env p (hcov p hp) (hlz.smp p hp) (hlz.nogen p hp), hlz.sm⟩
   constructor
   · rw [lrec_eq]
     have := stepReadInput_lrec hraw lead hlead hls rg.1 hl hlr (cs rest) f (by rw [← lrec_eq, cs_length]; exact hf)
